@@ -404,8 +404,27 @@ def _check_tree(t: Any, same_names: bool) -> list[tuple[str, str, dict]]:
 def derivative_cases() -> list[tuple[str, str, dict]]:
     from symplyphysics.core.experimental.vectors import (VectorFunction, VectorDot, VectorCross,
         VectorMixedProduct, VectorNorm, VectorSymbol)
+    out: list[tuple[str, str, dict]] = []
+    # how the vector functions are declared must not matter: with the symbol they are applied to,
+    # with another formal symbol, by the number of arguments only, or not at all
+    for style in ("declared-t", "declared-other", "nargs", "undeclared"):
+        out += _derivative_cases(style)
+    return out
+
+
+def _derivative_cases(style: str) -> list[tuple[str, str, dict]]:
+    from symplyphysics.core.experimental.vectors import (VectorFunction, VectorDot, VectorCross,
+        VectorMixedProduct, VectorNorm, VectorSymbol)
     tt = sp.Symbol("t", real=True)
-    fs = [VectorFunction(n, [tt]) for n in "uvw"]
+    formal = sp.Symbol("s", real=True)
+    if style == "declared-t":
+        fs = [VectorFunction(n, [tt]) for n in "uvw"]
+    elif style == "declared-other":
+        fs = [VectorFunction(n, [formal]) for n in "uvw"]
+    elif style == "nargs":
+        fs = [VectorFunction(n, nargs=1) for n in "uvw"]
+    else:
+        fs = [VectorFunction(n) for n in "uvw"]
     comp = {}
     for n, f in zip("uvw", fs):
         comp[f(tt)] = tuple(sp.Function(f"{n}{i}")(tt) for i in (1, 2, 3))
@@ -431,8 +450,8 @@ def derivative_cases() -> list[tuple[str, str, dict]]:
     out = []
     for name, mk in exprs.items():
         for order in (1, 2):
-            tag = f"d{order}/dt{order} {name}"
-            case = {"derivative": name, "order": order}
+            tag = f"d{order}/dt{order} {name} [{style}]"
+            case = {"derivative": name, "order": order, "style": style}
             try:
                 with time_limit(30):
                     e = mk()
